@@ -20,6 +20,6 @@ for rid in args:
         print(rid, 'ANALYSIS-ERROR', e); continue
     print(f'== {rid} {rep.title}: {rep.counted()} instances (floor {rep.floor}), {len(rep.violations())} violations')
     for i in rep.instances:
-        if quiet and i.verdict == 'ok':
+        if quiet and i.verdict in ('ok', 'info'):
             continue
         print(f'   {i.verdict:9s} {i.where} | {i.key}' + (f' | {i.msg}' if i.msg else ''))
